@@ -155,8 +155,10 @@ class Request(HTTPConnection):
                 return json.loads(
                     self.body.decode(self.content_type.options.get("charset", "utf8"))
                 )
-            except (json.JSONDecodeError, UnicodeError, LookupError) as exc:
-                # also: the body is not text in the declared charset / unknown charset
+            except (ValueError, LookupError, RecursionError) as exc:
+                # ValueError: JSON syntax, body not text in the declared charset, an
+                # integer beyond the interpreter's digit limit; LookupError: unknown
+                # charset; RecursionError: nesting deeper than the decoder can follow
                 raise MalformedJSON(str(exc)) from None
 
         raise UnsupportedMediaType("application/json")
